@@ -100,4 +100,10 @@ CHECKS = {
             "runs": [step("VerifC13Locks", reach=["op-done"])]},
     "C08": {"prefixes": ["C08."], "assumptions": L3_ASSUME + L2_ASSUME, "validate_samples": {"quick": 1, "thorough": 2},
             "runs": [L2RUN, bmc({"K": 4, "N": 3, "reservedvar": 0}, {"K": 5, "N": 3, "reservedvar": 0}, reach=["taskerr.failfast"])]},
+    "C09": {"prefixes": ["C09."],
+            "assumptions": ["file-system contract: CreateTemp/Write/Close/Rename/Open are atomic operations; Rename atomically replaces; a write may be short; every OS call may fail (symbolic fault schedule)",
+                            "the JSON codec is a stub: Encode writes an opaque encoding of the snapshot in 1..chunks writes, Decode succeeds iff the file holds exactly one complete encoding",
+                            "the process can die (and a reader can look) only between file-system operations; power loss without fsync is outside the property"],
+            "runs": [{"pkg": S, "harness": ["harness/store"], "entry": "VerifC09Store", "quick": {"saves": 2, "chunks": 3}, "thorough": {"saves": 3, "chunks": 3},
+                      "reach": ["published", "save-ok", "save-failed", "end"]}]},
 }
